@@ -26,6 +26,9 @@ T = {
  "C07": ("property-based testing (byte-stream PBT, operands built backwards from quotient sequences, refint certificates) + libFuzzer in thorough",
          "Generated-input search over gcd/gcdext/lcm/invert/mpn_gcd/mpn_gcdext/mpn_gcd_1 and the Jacobi/Kronecker entry points: operand pairs are g*(x,y) with coprime (x,y) constructed from chosen quotient sequences (Fibonacci-like runs, huge partial quotients), special relations (a=b, b|a, |b|=2g, zero) and sizes around the Lehmer/HGCD/sub-quadratic crossovers; results are decided by refint certificates (g|a, g|b, a*s+b*t=g), the manual's cofactor rules, and a textbook Kronecker recursion. Exploration: executable exact oracle for a universally quantified property.",
          "DESIGN.md section 5 C07"),
+ "C08": ("property-based testing (byte-stream PBT, refint square-and-multiply oracle) + libFuzzer in thorough",
+         "Generated-input search over mpz_powm/powm_ui (bases of every sign and size, exponent bit patterns for every window width, moduli odd / even with any 2-adic valuation incl. zero low limbs / powers of two / +-1, sizes around the REDC and POWM crossovers, negative exponents with invertible base) and mpz_pow_ui/ui_pow_ui (0^0, +-1, +-2^k, negative bases); results are compared with an independent square-and-multiply on the reference bignum. Exploration with an exact executable oracle.",
+         "DESIGN.md section 5 C08"),
 }
 built = [i for i in ids if i in T and os.path.exists(os.path.join(ROOT, "props", i + ".cc")) or os.path.exists(os.path.join(ROOT, "props", i + "_run.py"))]
 checks = []
